@@ -71,9 +71,13 @@ def nearmiss_programs(ctx, rng, n):
             d = d.replace("type PT struct{ X int }", "type PT struct{ X int } // @packageonly once the callers are gone", 1)
             d = d.replace("type TT struct{ X int }", "type (\n\tTT struct{ X int } // @testonly\n\tTTaux struct{ X int } // @immutable\n)", 1)
             d = d.replace("type S struct{}", "type S struct{} // @immutable", 1)
+        if i % 2 == 1:
+            # comments that document a *member* (an interface method), not a top-level declaration
+            d = d.replace("\tM(n int) string", "\t// M is the only method.\n\t// @testonly\n\t// @packageonly\n\tM(n int) string", 1)
         pkgs = [{"path": "m/d", "name": "d", "files": [{"name": "d/d.go", "src": d}]}]
         for p in ("u", "w"):
             src, _where = gen_all.use_file(p, "%s/a.go" % p, codes=non_impl)
+            src += "\nfunc viaIface(i d.I) string { return i.M(1) }\n"
             # trailing comments and comments on local declarations mentioning the keywords
             src = src.replace("\tp.X = 1001", "\tp.X = 1001 // @immutable does not apply here, see @ignore").replace(
                 "\tvar v1007 d.T", "\t// @constructor NewT\n\tvar v1007 d.T")
